@@ -156,6 +156,8 @@ def _len(it, self, args, kw):
         return VInt(len(v.items))
     if isinstance(v, VSeq):
         return VInt(z3.Length(v.e))
+    if isinstance(v, VLib) and v.kind == "dict_keys":
+        v = v.f["dict"]
     if isinstance(v, VDict):
         if v.open_:
             raise OutOfSubset("len of an open dict")
@@ -757,8 +759,82 @@ def _bytes_find(it, self, args, kw):
         it.raise_(TypeError, "argument should be integer or bytes-like object")
     if self.conc is not None and sub.conc is not None:
         return VInt(self.conc.find(sub.conc))
-    r = z3.IndexOf(self.e, sub.e, 0)
+    # r is SOME occurrence (or -1): a superset of what find returns (the first one), which is sound for universal postconditions
+    # and keeps str.indexof (first-occurrence minimality) away from the solver.
+    n, m = z3.Length(self.e), z3.Length(sub.e)
+    r = z3.Int(it.fresh_name("find"))
+    it.assume(z3.Or(r == -1, z3.And(r >= 0, r + m <= n, z3.Extract(self.e, r, m) == sub.e)))
+    it.assume(z3.And(r >= -1, r <= n, n < 2 ** 63))  # a CPython bytes object is shorter than sys.maxsize
+    # consequences of the occurrence, spelled out per part of the pattern (Extract(x, r, m) == p1 ++ .. ++ pk with m the total length
+    # gives Extract(x, r + o_i, |p_i|) == p_i)
+    parts = []
+    for pt in _s()._flatten_concat(z3.simplify(sub.e)):  # consecutive single bytes form one constant part
+        unit = z3.is_app(pt) and pt.decl().kind() == z3.Z3_OP_SEQ_UNIT
+        if unit and parts and parts[-1][0]:
+            parts[-1][1].append(pt)
+        else:
+            parts.append((unit, [pt]))
+    parts = [_s()._cat_terms(g) for _, g in parts]
+    local, offs = [], []
+    if 1 < len(parts) <= 12:
+        off = z3.IntVal(0)
+        for pt in parts:
+            f = z3.Implies(r >= 0, z3.And(r + off + z3.Length(pt) <= n, z3.Extract(self.e, r + off, z3.Length(pt)) == pt))
+            it.assume(f)
+            local.append(f)
+            offs.append((off, pt))
+            kl = it.known_lens.get(pt.sexpr())
+            off = z3.simplify(off + (z3.IntVal(kl) if kl is not None else z3.Length(pt)))
+    # an occurrence that can be PROVED at a syntactic position p excludes -1 (find returns the first occurrence, which is <= p)
+    p = _syntactic_occurrence(it, self.e, sub.e)
+    if p is not None:
+        it.assume(z3.And(r >= 0, r <= p))
+        it.find_facts = getattr(it, "find_facts", [])
+        it.find_facts.append((self.e, r, offs, local + [r >= 0]))
     return VInt(r)
+
+
+def _syntactic_occurrence(it, hay, needle):
+    """A position p with PROVED Extract(hay, p, |needle|) == needle, found by lining up the parts of both concatenations."""
+    from . import smt
+    hp, npz = _s()._flatten_concat(z3.simplify(hay)), _s()._flatten_concat(z3.simplify(needle))
+    if not npz or len(hp) < len(npz):
+        return None
+
+    def const(e):
+        return e.as_string() if z3.is_string_value(e) else None
+    cands = []
+    for j in range(len(hp)):
+        # the needle's non-constant parts must coincide with consecutive parts of the haystack starting at j (first part may be a constant suffix)
+        first = const(npz[0])
+        rest = npz[1:] if first is not None else npz
+        start = j + 1 if first is not None else j
+        if first is not None and const(hp[j]) is None:
+            continue
+        ok = True
+        for k, pt in enumerate(rest):
+            if start + k >= len(hp):
+                ok = False
+                break
+            a, b = hp[start + k], pt
+            if z3.eq(a, b):
+                continue
+            if k == len(rest) - 1 and const(a) is not None and const(b) is not None:
+                continue  # last part: a constant prefix (checked by the proof below)
+            ok = False
+            break
+        if ok and rest:
+            before = z3.Sum([z3.Length(x) for x in hp[:j]]) if j else z3.IntVal(0)
+            if first is not None:
+                cands.append(z3.simplify(before + z3.Length(hp[j]) - z3.Length(npz[0])))
+            else:
+                cands.append(z3.simplify(before))
+    for p in cands[:4]:
+        goal = z3.And(p >= 0, z3.Extract(hay, p, z3.Length(needle)) == needle)
+        res = smt.prove(list(it.facts) + list(it.pc), goal, timeout_ms=8000)
+        if res["status"] == "unsat":
+            return p
+    return None
 
 
 @handler("bytes.startswith")
@@ -1000,6 +1076,9 @@ def _seq_append(it, self, args, kw):
 @handler("dict.keys")
 def _dict_keys(it, self, args, kw):
     from .interp import mk_key
+    if any(e.present is not True for e in self.entries.values()) and not self.open_:
+        # a VIEW: membership is decided for the one key asked for; the keys are materialised (one path per subset) only on iteration
+        return VLib("dict_keys", dict=self)
     return VList([mk_key(k) for k in it.dict_keys(self)])
 
 
